@@ -17,7 +17,7 @@ GroupA == {[Default EXCEPT !.group = "dataset", !.titleWords = t, !.abstract = a
 GroupB == {[Default EXCEPT !.group = "entities", !.table = [present |-> tp, desc |-> d, size |-> s, auth |-> a, nrec |-> n, delim |-> dl], !.other = o] :
              tp \in BOOLEAN, d \in BOOLEAN, s \in BOOLEAN, a \in BOOLEAN, n \in BOOLEAN, dl \in BOOLEAN, o \in {"absent", "with-description", "without-description"}}
 GroupC == {[Default EXCEPT !.group = "party", !.party = [el |-> e, userId |-> u, email |-> m, given |-> g]] :
-             e \in {"creator", "contact", "associatedParty", "metadataProvider", "personnel"}, u \in {"none", "other-directory", "orcid", "orcid+other"},
+             e \in {"creator", "contact", "associatedParty", "metadataProvider", "personnel"}, u \in {"none", "other-directory", "orcid", "other+orcid", "orcid+other", "orcid+other+other", "empty-orcid+other"},
              m \in BOOLEAN, g \in BOOLEAN}
 Init == profile \in GroupA \cup GroupB \cup GroupC
 Next == UNCHANGED profile
